@@ -147,6 +147,31 @@ func streamScenario(s *verifsim.Sim) {
 		ops = append(ops, op{data: tail})
 	}
 	reset := T.Chance(1, 10) // the client goes away with an error somewhere in the middle
+	// a client that ends its stream inside the hello: only a prefix is ever sent, then FIN
+	// (right away, within the timeout, or after it). Nothing can be recognised; what was
+	// consumed must still be handed on, followed by the end of stream.
+	closeAfter := 2 * timeout
+	truncated := false
+	if !reset && T.Chance(1, 6) {
+		truncated = true
+		k := 1 + T.Choose(len(h.data)-1)
+		if T.Chance(1, 2) && len(h.data) > 8 {
+			k = 6 + T.Choose(len(h.data)-7) // inside the record body, header complete
+		}
+		sent = append([]byte(nil), h.data[:k]...)
+		ops = ops[:0]
+		if k > 2 && T.Chance(1, 2) {
+			c := 1 + T.Choose(k-1)
+			ops = append(ops, op{data: sent[:c]}, op{sleep: gaps[T.Choose(len(gaps))]}, op{data: sent[c:]})
+			firstChunk = c
+		} else {
+			ops = append(ops, op{data: sent})
+			firstChunk = k
+		}
+		allAtOnce = false
+		closeAfter = []time.Duration{0, timeout / 4, 2 * timeout}[T.Choose(3)]
+		s.Fault("client-fin-inside-hello")
+	}
 
 	cli, srv := verifsim.NewStreamPair(s, "client", "sniffed")
 	conn := &verifsim.StreamNetConn{StreamEnd: srv, Local: &net.TCPAddr{IP: net.IPv4(93, 184, 216, 34), Port: 443}, Remote: &net.TCPAddr{IP: net.IPv4(10, 1, 2, 3), Port: 40000}}
@@ -188,8 +213,10 @@ func streamScenario(s *verifsim.Sim) {
 			}
 		}
 		// keep the connection open a little, then end the stream
-		time.Sleep(2 * timeout)
-		verifsim.YieldB("client-woke")
+		if closeAfter > 0 {
+			time.Sleep(closeAfter)
+			verifsim.YieldB("client-woke")
+		}
 		cli.CloseWrite()
 	})
 	verifsim.Go("sniff", func() {
@@ -211,13 +238,21 @@ func streamScenario(s *verifsim.Sim) {
 			s.Failf("c06-stream-sniff-never-returns", "timeout=%v hello=%s: SniffTcp has not returned %v after the sniffer was created", timeout, h.kind, s.Now()-tCreate)
 			return
 		}
+		// bounded liveness: SniffTcp has returned, the client has written everything and ended
+		// its stream, every byte has been delivered to dae's side - reading what the sniffer
+		// hands on must come to the end of stream; a minute of simulated time is far beyond
+		// any window the sniffer has
+		if sniffDone && cliDone && !reset && cli.InFlight() == 0 && srv.Unread() == 0 && s.Now()-tRet > time.Minute {
+			s.Failf("c06-stream-read-blocked-after-sniff", "timeout=%v hello=%s truncated=%v: SniffTcp returned (%q, %v) at %v and the client ended its stream, but reading the connection through the sniffer has still not finished at %v (%d bytes sent); live tasks: %v", timeout, h.kind, truncated, name, sniffErr, tRet, s.Now(), len(sent), s.LiveTasks(""))
+			return
+		}
 		s.Probe("step-budget-exhausted")
 		cli.Close()
 		srv.Close()
 		s.Quiesce(func() bool { return allDone && cliDone }, 0, time.Minute)
 		return
 	}
-	desc := fmt.Sprintf("timeout=%v hello=%s (%d bytes, first write %d, first delivery %d bytes at %v, complete at %v) reset=%v", timeout, h.kind, len(h.data), firstChunk, firstSize, firstDelivered, allDelivered, reset)
+	desc := fmt.Sprintf("timeout=%v hello=%s (%d bytes, first write %d, first delivery %d bytes at %v, complete at %v) reset=%v truncated=%v (%d bytes sent in all, end of stream %v after the last write)", timeout, h.kind, len(h.data), firstChunk, firstSize, firstDelivered, allDelivered, reset, truncated, len(sent), closeAfter)
 	// never waits past its timeout
 	slack := timeout / 4
 	if slack < 5*time.Millisecond {
@@ -232,7 +267,11 @@ func streamScenario(s *verifsim.Sim) {
 		s.Failf("c06-wrong-name@truncated-http-host", "%s: sniffed %q: the HTTP request head was cut inside its Host line and the sniffer took the partial value for the name (the head carries %q)", desc, name, h.name)
 		return
 	}
-	if sniffErr == nil && !strings.EqualFold(name, h.name) {
+	if truncated && sniffErr == nil && name != "" && !(h.kind == "http" && strings.EqualFold(name, h.name)) {
+		s.Failf("c06-stream-wrong-name", "%s: sniffed %q from a hello of which only the first %d bytes were ever sent", desc, name, len(sent))
+		return
+	}
+	if !truncated && sniffErr == nil && !strings.EqualFold(name, h.name) {
 		s.Failf("c06-stream-wrong-name", "%s: sniffed %q, the bytes carry %q", desc, name, h.name)
 		return
 	}
@@ -240,7 +279,7 @@ func streamScenario(s *verifsim.Sim) {
 		s.Probe("stream.name-found")
 	}
 	// recognised however it is cut, once the record header has arrived and the rest follows within the timeout
-	if !reset && h.name != "" && h.hdr > 0 && sniffErr != nil &&
+	if !reset && !truncated && h.name != "" && h.hdr > 0 && sniffErr != nil &&
 		firstChunk >= h.hdr && firstSize >= h.hdr && firstDelivered >= 0 && allDelivered >= 0 &&
 		allDelivered-tCreate < timeout/2 && (h.kind != "http" || (allAtOnce && firstSize >= len(h.data))) {
 		s.Failf("c06-stream-name-missed", "%s: the whole %s reached the sniffer %v after it was created (timeout %v), yet SniffTcp returned %v", desc, h.kind, allDelivered-tCreate, timeout, sniffErr)
